@@ -27,15 +27,15 @@ class Q:
     """One solver query: a harness entry point compiled with concrete shape parameters; all data inputs symbolic."""
     def __init__(self, name, src, entry, defs=None, unwind=8, unwindset=None, rt=(), tier='quick', timeout=None,
                  solvers=None, labels=None, shape=None, cdefs=None, bughunt=False, unwind_is_property=False,
-                 finding_class=None, note=None, nsw=False, new_limit=None, mem_gb=None, rt_unwind=260):
+                 params=None, finding_class=None, note=None, nsw=False, new_limit=None, mem_gb=None, rt_unwind=260):
         self.name, self.src, self.entry = name, src, entry
         self.defs = dict(defs or {})
         self.unwind, self.unwindset = unwind, list(unwindset or [])
         self.rt = list(rt); self.tier = tier; self.timeout = timeout
         self.solvers = solvers; self.labels = labels
-        self.shape = shape if shape is not None else dict(self.defs)
+        self.shape = shape if shape is not None else dict(self.defs, **({'params': list(params)} if params else {}))
         self.cdefs = dict(cdefs or {}); self.bughunt = bughunt; self.unwind_is_property = unwind_is_property
-        self.rt_unwind = rt_unwind; self.note = note; self.nsw = nsw; self.new_limit = new_limit; self.mem_gb = mem_gb
+        self.params = list(params or []); self.rt_unwind = rt_unwind; self.note = note; self.nsw = nsw; self.new_limit = new_limit; self.mem_gb = mem_gb
 
 def sh(cmd, timeout=None, cwd=None, mem_gb=None, env=None):
     def pre():
@@ -130,13 +130,14 @@ def cbmc_cmd(q, outd, extra):
     cmd = ['cbmc'] + files + ['-I', os.path.join(ROOT, 'rt')] + CBMC_BASE + ['--unwind', str(q.unwind)]
     if q.bughunt: cmd = [c for c in cmd if c != '--unwinding-assertions']
     for k, v in q.cdefs.items(): cmd += ['-D%s=%s' % (k, v)]
+    if q.params: cmd += ['-DVP_PARAMS=' + ','.join(str(int(p)) for p in q.params)]
     if q.nsw: cmd += ['-DVP_NSW']
     if q.new_limit is not None: cmd += ['-DVP_NEW_LIMIT=%d' % q.new_limit]
     return cmd + extra
 
 def loops_for(q, outd):
     """map (function-name pattern -> bound) to --unwindset entries using cbmc --show-loops"""
-    pats = list(q.unwindset) + [(r'^(vp_mem|X_|vp_ct)', q.rt_unwind)]
+    pats = list(q.unwindset) + [(r'^(vp_|X_)', q.rt_unwind)]
     pats = [(p, b) for p, b in pats if b]
     if not pats: return []
     r = sh(cbmc_cmd(q, outd, ['--show-loops', '--json-ui']), timeout=300)
@@ -243,27 +244,28 @@ def build_native(src, defs, rt, outdir, tag='native'):
         if r['rc'] != 0: raise BuildError('native build failed: ' + r['err'][-3000:])
         return exe
 
-def run_native(exe, entry, inputs, timeout=60):
+def run_native(exe, entry, inputs, timeout=60, params=()):
     inp = exe + '.%d.in' % threading.get_ident()
     open(inp, 'w').write('\n'.join(str(v) for v in inputs) + '\n')
-    env = dict(os.environ, ASAN_OPTIONS='detect_leaks=0:abort_on_error=0:exitcode=77', UBSAN_OPTIONS='print_stacktrace=1:exitcode=78')
+    env = dict(os.environ, VP_PARAMS=','.join(str(int(p)) for p in params), ASAN_OPTIONS='detect_leaks=0:abort_on_error=0:exitcode=77', UBSAN_OPTIONS='print_stacktrace=1:exitcode=78')
     r = sh([exe, entry, inp], timeout=timeout, env=env)
     os.unlink(inp)
     return r
 
 def replay_confirms(r, label):
-    """does the native run reproduce the solver's counterexample?"""
+    """does the native run reproduce the solver's counterexample?  prop.* labels must fail the same assertion natively
+    (or trip a sanitizer); memory-safety / ub.* obligations are confirmed by any sanitizer report or failed check"""
     txt = r['out'] + r['err']
     if r['timeout']: return 'hang'
     if 'VP_ASSUME_FAILED' in txt: return None
-    if 'VP_CHECK_FAIL ' + label in txt: return 'assert:' + label
-    m = re.search(r'VP_CHECK_FAIL (\S+)', txt)
-    if m: return 'assert:' + m.group(1)
     if 'AddressSanitizer' in txt:
         m = re.search(r'AddressSanitizer: (\S+)', txt); return 'asan:' + (m.group(1) if m else '?')
     if 'runtime error:' in txt:
         m = re.search(r'runtime error: ([^\n]{0,80})', txt); return 'ubsan:' + m.group(1)
-    if r['rc'] not in (0,) and r['rc'] is not None and r['rc'] < 0: return 'signal:%d' % -r['rc']
+    if 'VP_CHECK_FAIL ' + label + '\n' in txt: return 'assert:' + label
+    m = re.search(r'VP_CHECK_FAIL (\S+)', txt)
+    if m and not label.startswith('prop.'): return 'assert:' + m.group(1)
+    if r['rc'] is not None and r['rc'] < 0: return 'signal:%d' % -r['rc']
     return None
 
 # ---------------------------------------------------------------------------------------------- known findings
@@ -303,12 +305,14 @@ def run_query(pid, q, wdir, tier, findings):
     mem = q.mem_gb or MEM_CAP_GB
     us = loops_for(q, outd)
     # witness twin: must be able to reach the end of the harness (guards against vacuous passes)
-    wr = sh(cbmc_cmd(q, outd, us + ['-DVP_WITNESS', '--json-ui', '--property', 'main.assertion.1']), timeout=timeout, mem_gb=mem)
-    wres, wstatus = parse_results(wr['out'])
-    wit = None
-    if wres is not None:
-        for p in wres:
-            if p.get('description', '').startswith('witness.'): wit = p['status']
+    wit = None; wr = None
+    for sv, cap in ((SOLVERS['minisat'], min(20, timeout)), (SOLVERS['kissat'], timeout)):
+        wr = sh(cbmc_cmd(q, outd, us + sv + ['-DVP_WITNESS', '--json-ui', '--property', 'main.assertion.1']), timeout=cap, mem_gb=mem)
+        wres, wstatus = parse_results(wr['out'])
+        if wres is not None:
+            for p in wres:
+                if p.get('description', '').startswith('witness.'): wit = p['status']
+        if wit: break
     rec['witness'] = {'FAILURE': 'reachable', 'SUCCESS': 'UNREACHABLE'}.get(wit, 'inconclusive' if wr['timeout'] else 'error')
     if rec['witness'] == 'error': rec['witness_error'] = (wr['out'][-500:] + wr['err'][-500:])
     groups = [None]
@@ -358,7 +362,7 @@ def run_query(pid, q, wdir, tier, findings):
             kf = match_finding(findings, q.name, lab)
             try:
                 exe = build_native(q.src, q.defs, q.rt, os.path.join(tud, 'native'))
-                nr = run_native(exe, q.entry, inputs or [], timeout=20 if lab == 'unwind' else 60)
+                nr = run_native(exe, q.entry, inputs or [], timeout=20 if lab == 'unwind' else 60, params=q.params)
                 conf = replay_confirms(nr, lab)
                 f['native'] = conf; f['native_tail'] = (nr['out'] + nr['err'])[-1500:]
             except BuildError as e:
@@ -405,6 +409,9 @@ def check(pid, tier, only=None, keep=False, jobs=None, list_only=False):
             except Exception as e:
                 rec = dict(query=q.name, verdict='build_error', error='%s: %s' % (type(e).__name__, e), failures=[], assertions=0, shape=q.shape, harness=q.src, entry=q.entry)
             recs.append(rec)
+            with open(os.path.join(wdir, 'progress.log'), 'a') as pl:
+                pl.write('%-60s %-12s %7.1fs solver=%6.1fs asserts=%d %s\n' % (rec['query'], rec['verdict'], rec.get('wall_s', 0), rec.get('solver_s', 0), rec.get('assertions', 0),
+                         ','.join('%s:%s' % (f['label'], f['status']) for f in rec['failures'])))
             if os.environ.get('GV_VERBOSE'):
                 sys.stderr.write('[%s] %-50s %-12s %6.1fs asserts=%d %s\n' % (pid, rec['query'], rec['verdict'], rec.get('wall_s', 0), rec.get('assertions', 0),
                                  ','.join('%s:%s' % (f['label'], f['status']) for f in rec['failures'])))
@@ -435,7 +442,7 @@ def check(pid, tier, only=None, keep=False, jobs=None, list_only=False):
             elif f['status'] == 'confirmed':
                 os.makedirs(rdir, exist_ok=True)
                 rp = os.path.join(rdir, re.sub(r'[^A-Za-z0-9_.-]', '_', rec['query'] + '.' + f['label']) + '.json')
-                json.dump(dict(property=pid, query=rec['query'], src=q.src, defs=q.defs, entry=q.entry, rt=q.rt, label=f['label'],
+                json.dump(dict(property=pid, query=rec['query'], src=q.src, defs=q.defs, entry=q.entry, rt=q.rt, params=q.params, label=f['label'],
                                description=f['description'], inputs=f['inputs'], native=f['native'], native_tail=f['native_tail']), open(rp, 'w'), indent=1)
                 violations.append((rec['query'], f['label'], rp))
             elif f['status'] == 'bound_too_small':
@@ -513,7 +520,7 @@ def replay(path):
         shutil.rmtree(d, ignore_errors=True); return rc
     d = os.path.join(WORK, 'replay_%d' % os.getpid())
     exe = build_native(r['src'], r['defs'], r.get('rt', []), d)
-    nr = run_native(exe, r['entry'], r['inputs'])
+    nr = run_native(exe, r['entry'], r['inputs'], params=r.get('params', []))
     print(nr['out'][-3000:]); print(nr['err'][-3000:])
     c = replay_confirms(nr, r['label'])
     print('REPRODUCED: %s' % c if c else 'not reproduced')
